@@ -163,6 +163,8 @@ class C17(Prop):
         "AwProofs.C17.parse_error_kind",
         "AwProofs.C17.resolve_error_kind",
         "AwProofs.C17.run_error_kind",
+        "AwProofs.C17.run_error_kind_with_bodies",
+        "AwProofs.C17.reads_of_listed_buckets_succeed",
     ]
     TRUSTED = [
         "harness/registry_dump.py (introspection of aw_query.functions: signatures, annotations, decorator chain) generates AwModel/Query/RegistryGen.lean on every run",
